@@ -151,108 +151,129 @@ def gen_program(seed, k, tier):
                 exact=not transcendental, kind='generated'), groups, texts
 
 
-def run_program(meta, groups, pas, mon, viol, flavour_note=''):
+def run_program(meta, groups, pas, mon, viol, flavour_note='', pas2=None):
     """Compile + run the program, then validate group by group."""
     from pysph.base import kernels as K
     from cyarray.api import UIntArray
     kernel = getattr(K, meta['kernel'])(dim=meta['dim'])
     snaps = []
 
+    cur = {'pas': pas}
+
     def mk_post(i):
         def post():
-            snaps.append(snapshot(pas))
+            snaps.append(snapshot(cur['pas']))
         return post
     ref_groups = []
+    originals = {}
     for i, g in enumerate(groups):
         rg = copy.copy(g)
         rg.equations = [copy.deepcopy(e) for e in g.equations]
         rg.post = None
         ref_groups.append(rg)
+        originals[id(rg)] = [copy.deepcopy(e.__dict__) for e in rg.equations]
         g.post = mk_post(i)
-    s0 = snapshot(pas)
     try:
         ev = evalkit.Evaluator(pas, groups, kernel, meta['dim'])
     except BaseException as e:
         mon['programs_not_built'] = mon.get('programs_not_built', 0) + 1
         return ('build', '%s: %r %s' % (type(e).__name__, e,
                                         getattr(e, 'log', '')))
-    ev.compute(0.3, 0.01)
-    mon['programs'] = mon.get('programs', 0) + 1
-    if len(snaps) != len(groups):
-        return ('post-callbacks', '%d post calls for %d groups' % (
-            len(snaps), len(groups)))
-    # neighbours in the order the real NNPS returns them (positions never
-    # change inside a program: the generated equations do not write x,y,z,h)
-    nb = UIntArray()
-    cache = {}
-    final = snapshot(pas)
+    def validate(pas, phase):
+        del snaps[:]
+        s0 = snapshot(pas)
+        ev.compute(0.3, 0.01)
+        mon['programs'] = mon.get('programs', 0) + 1
+        if len(snaps) != len(groups):
+            return ('post-callbacks', '%d post calls for %d groups' % (
+                len(snaps), len(groups)))
+        # neighbours in the order the real NNPS returns them (positions never
+        # change inside a program: the generated equations do not write x,y,z,h)
+        nb = UIntArray()
+        cache = {}
+        final = snapshot(pas)
 
-    state = {}
+        state = {}
 
-    def neighbours(si, di, i):
-        # the compiled loop asks the (un-updated) neighbour search for the
-        # neighbours of d_idx at the moment it gets there, with whatever x
-        # and h the arrays hold by then (some shipped equations scale h or
-        # move x inside their loop): give the real arrays the reference
-        # state's coordinates and h before every query
-        ref = state['ref']
-        for pa, ra in zip(pas, ref.arrays):
+        def neighbours(si, di, i):
+            # the compiled loop asks the (un-updated) neighbour search for the
+            # neighbours of d_idx at the moment it gets there, with whatever x
+            # and h the arrays hold by then (some shipped equations scale h or
+            # move x inside their loop): give the real arrays the reference
+            # state's coordinates and h before every query
+            ref = state['ref']
+            for pa, ra in zip(pas, ref.arrays):
+                for c in ('x', 'y', 'z', 'h'):
+                    pa.get(c, only_real_particles=False)[:] = ra.props[c]
+            ev.nnps.get_nearest_particles(si, di, i, nb)
+            return nb.get_npy_array().copy()
+
+        def before_loop(ref):
+            state['ref'] = ref
+        prev = s0
+        for gi, rg in enumerate(ref_groups):
+            ref = refeval.RefEval(pas, [rg], kernel, neighbours)
+            ref.before_loop = before_loop
+            load_into(ref, prev)
+            prev = snaps[gi]
+            try:
+                ref.compute(0.3, 0.01)
+            except refeval.PyUndefined as e:
+                mon['groups_python_undefined'] = mon.get(
+                    'groups_python_undefined', 0) + 1
+                mon.setdefault('_undef', set()).add(str(e)[:100])
+                continue
+            except (NameError, TypeError, AttributeError, IndexError,
+                    KeyError) as e:
+                mon['groups_python_not_executable'] = mon.get(
+                    'groups_python_not_executable', 0) + 1
+                mon.setdefault('_notexec', set()).add('%s: %s' % (
+                    '+'.join(e_.__class__.__name__ for e_ in rg.equations),
+                    repr(e)[:120]))
+                continue
+            mon['groups_compared'] = mon.get('groups_compared', 0) + 1
+            mon['equations_compared'] = mon.get('equations_compared', 0) + len(
+                rg.equations)
+            bad = compare(ref, snaps[gi], meta['exact'], meta.get('ulps', 64))
+            if bad and meta['kind'] == 'shipped' and bad[5] != 'int' and not (
+                    np.isfinite(bad[3]) and np.isfinite(bad[4])):
+                # random admissible-looking data drove a shipped formula outside
+                # its domain (pow of a negative number, ...): Python and C define
+                # different non-finite results there
+                mon['groups_nonfinite_discarded'] = mon.get(
+                    'groups_nonfinite_discarded', 0) + 1
+                bad = None
+            if bad:
+                names = '+'.join(e.__class__.__name__ for e in rg.equations)
+                key = 'mismatch:%s' % (names if meta['kind'] == 'shipped'
+                                       else 'generated-equation')
+                if sum(1 for v in viol if v['key'] == key) < 2:
+                    viol.append(dict(
+                        key=key, what='[%s] group %d (%s, %s %dD%s): %s.%s[%d] '
+                        'python %r compiled %r (%s ulp)' % (
+                            phase, gi, names, meta['kernel'], meta['dim'],
+                            flavour_note, bad[0], bad[1], bad[2], bad[3],
+                            bad[4], bad[5]),
+                        case=dict(meta=meta, group=gi)))
+                mon['violating_groups'] = mon.get('violating_groups', 0) + 1
+        for pa in pas:
             for c in ('x', 'y', 'z', 'h'):
-                pa.get(c, only_real_particles=False)[:] = ra.props[c]
-        ev.nnps.get_nearest_particles(si, di, i, nb)
-        return nb.get_npy_array().copy()
-
-    def before_loop(ref):
-        state['ref'] = ref
-    prev = s0
-    for gi, rg in enumerate(ref_groups):
-        ref = refeval.RefEval(pas, [rg], kernel, neighbours)
-        ref.before_loop = before_loop
-        load_into(ref, prev)
-        prev = snaps[gi]
-        try:
-            ref.compute(0.3, 0.01)
-        except refeval.PyUndefined as e:
-            mon['groups_python_undefined'] = mon.get(
-                'groups_python_undefined', 0) + 1
-            mon.setdefault('_undef', set()).add(str(e)[:100])
-            continue
-        except (NameError, TypeError, AttributeError, IndexError,
-                KeyError) as e:
-            mon['groups_python_not_executable'] = mon.get(
-                'groups_python_not_executable', 0) + 1
-            mon.setdefault('_notexec', set()).add('%s: %s' % (
-                '+'.join(e_.__class__.__name__ for e_ in rg.equations),
-                repr(e)[:120]))
-            continue
-        mon['groups_compared'] = mon.get('groups_compared', 0) + 1
-        mon['equations_compared'] = mon.get('equations_compared', 0) + len(
-            rg.equations)
-        bad = compare(ref, snaps[gi], meta['exact'], meta.get('ulps', 64))
-        if bad and meta['kind'] == 'shipped' and bad[5] != 'int' and not (
-                np.isfinite(bad[3]) and np.isfinite(bad[4])):
-            # random admissible-looking data drove a shipped formula outside
-            # its domain (pow of a negative number, ...): Python and C define
-            # different non-finite results there
-            mon['groups_nonfinite_discarded'] = mon.get(
-                'groups_nonfinite_discarded', 0) + 1
-            bad = None
-        if bad:
-            names = '+'.join(e.__class__.__name__ for e in rg.equations)
-            key = 'mismatch:%s' % (names if meta['kind'] == 'shipped'
-                                   else 'generated-equation')
-            if sum(1 for v in viol if v['key'] == key) < 2:
-                viol.append(dict(
-                    key=key, what='group %d (%s, %s %dD%s): %s.%s[%d] python '
-                    '%r compiled %r (%s ulp)' % (
-                        gi, names, meta['kernel'], meta['dim'], flavour_note,
-                        bad[0], bad[1], bad[2], bad[3], bad[4], bad[5]),
-                    case=dict(meta=meta, group=gi)))
-            mon['violating_groups'] = mon.get('violating_groups', 0) + 1
-    for pa in pas:
-        for c in ('x', 'y', 'z', 'h'):
-            pa.get(c, only_real_particles=False)[:] = final[pa.name][c]
-    return None
+                pa.get(c, only_real_particles=False)[:] = final[pa.name][c]
+        return None
+    r = validate(pas, 'first arrays')
+    if r or pas2 is None:
+        return r
+    # second life: the same compiled evaluator on replacement arrays (new
+    # objects, other sizes, other property and constant values), as when a
+    # post-processing tool loads the next output file
+    cur['pas'] = pas2
+    ev.arrays = pas2
+    ev.ae.update_particle_arrays(pas2)
+    ev.set_nnps(type(ev.nnps))
+    # (attributes an equation changed in its reduce() carry over, in the
+    # compiled objects as in the reference's copies)
+    mon['second_life_programs'] = mon.get('second_life_programs', 0) + 1
+    return validate(pas2, 'after update_particle_arrays')
 
 
 # ====================================================== shipped equations
@@ -428,7 +449,9 @@ def work(item):
                                                      item['seed'], item['k']))
         pas = gen_arrays(rng, meta['names'], meta['dim'],
                          40 if item['tier'] == 'quick' else 90)
-        r = run_program(meta, groups, pas, mon, viol, note)
+        pas2 = gen_arrays(rng, meta['names'], meta['dim'],
+                          40 if item['tier'] == 'quick' else 90)
+        r = run_program(meta, groups, pas, mon, viol, note, pas2=pas2)
         if r:
             viol.append(dict(key='generated-program-%s' % r[0],
                              what='%s\n%s' % (r[1][:1500], texts[0][:600]),
